@@ -107,6 +107,15 @@ pub fn replay_boundary(out: &mut Out, v: &Vocab, e: &str, exh: usize, random: us
         }
     }
     for _ in 0..random { let n = 2 + rng.below(7); lists.push((0..n).map(|_| rng.below(p.len())).collect()); }
+    // long lists (beyond the insertion-sort / small-size paths of sorting and selection routines): distinct small values, descending,
+    // ascending, rotated and seeded shuffles, every length 9..=40
+    let mut long_lists: Vec<Vec<String>> = Vec::new();
+    for n in 9..=40usize {
+        let base: Vec<i64> = (1..=n as i64).map(|k| k * 3 - 20).collect();
+        let mut variants: Vec<Vec<i64>> = vec![base.iter().rev().cloned().collect(), base.clone(), { let mut r = base.clone(); r.rotate_left(n / 3); r }];
+        for _ in 0..(if random > 1000 { 6 } else { 2 }) { let mut sh = base.clone(); for i in (1..n).rev() { let j = rng.below(i + 1); sh.swap(i, j); } variants.push(sh); }
+        for vr in variants { long_lists.push(vr.iter().map(|x| x.to_string()).collect()); }
+    }
     let fns: Vec<(&str, &str)> = if e == "i64" { vec![("Min", "fv"), ("Max", "fv"), ("Avg", "fa"), ("Med", "fv"), ("Gcd", "fv"), ("Lcm", "fv")] } else { vec![("Min", "fv"), ("Max", "fv"), ("Avg", "fa"), ("Med", "fv")] };
     let ph = default_placeholder(e);
     for (li, l) in lists.iter().enumerate() {
@@ -121,6 +130,22 @@ pub fn replay_boundary(out: &mut Out, v: &Vocab, e: &str, exh: usize, random: us
             let exp = expected(e, &t, &asg, &ph);
             let ctx = json!({"aggregate": f, "args": args});
             checked_call(out, e, &text, &ph, Some(&exp), json!({"v": "accept"}), args.len() >= 2, &ctx);
+        }
+    }
+    for (li, l) in long_lists.iter().enumerate() {
+        out.heartbeat((lists.len() + li) as u64);
+        out.stats.items += 1;
+        let args: Vec<&str> = l.iter().map(|s| s.as_str()).collect();
+        for (f, cls) in &fns {
+            if *f == "Lcm" { continue; }          // the lcm of 9+ distinct values leaves the range; covered by the short lists
+            let kws: Vec<_> = v.keywords_of(e, cls).into_iter().filter(|k| &k.func == f).collect();
+            let kw = kws[li % kws.len()];
+            let text = format!("{}({})", kw.name, args.join(","));
+            if text.chars().count() > 256 { continue; }
+            let (t, asg) = tree_of(e, f, cls, &args);
+            let exp = expected(e, &t, &asg, &ph);
+            let ctx = json!({"aggregate": f, "args": args.len()});
+            checked_call(out, e, &text, &ph, Some(&exp), json!({"v": "accept"}), true, &ctx);
         }
     }
 }
